@@ -311,8 +311,13 @@ def resolve_callable(key, ctx, selfobj):
 def check_case(key, ctx, case, per_call_timeout=5.0):
     """run one case; returns None if every clause holds, else a dict describing the failure"""
     c = CONTRACTS[key]
-    selfobj = dec(case["self"]) if case.get("self") is not None else None
-    args = {k: dec(v) for k, v in case.get("args", {}).items()}
+    try:
+        selfobj = dec(case["self"]) if case.get("self") is not None else None
+        args = {k: dec(v) for k, v in case.get("args", {}).items()}
+    except Exception as e:   # noqa: BLE001
+        # the pre-state is built by running public operations of the real code: on a changed tree these may raise;
+        # that is not a verdict about THIS function (the functions that raised have their own contracts)
+        return {"skip": f"building the pre-state raised {type(e).__name__}: {e}", "prestate": True}
     env = dict(args)
     if selfobj is not None:
         env["self"] = selfobj
@@ -410,6 +415,28 @@ def check_case(key, ctx, case, per_call_timeout=5.0):
         if hasattr(v, "__slots__") and not any(m == k or m.startswith(k + ".") for m in c.modifies):
             if not same_value(v, old_env[k]):
                 return {"clause": f"frame.{k}_unchanged", "observed": "argument object modified"}
+    if c.pure and isinstance(result, (list, bytearray, dict, set)):
+        # a pure function of its arguments: what the caller does to one result cannot show in the next one
+        # (a memoised mutable result would)
+        import copy as _copy
+        first = _copy.deepcopy(result)
+        try:
+            if isinstance(result, list):
+                result.append(None)
+                if len(result) > 1:
+                    del result[0]
+            elif isinstance(result, bytearray):
+                result.append(0)
+            elif isinstance(result, dict):
+                result[object()] = None
+            else:
+                result.add(object())
+            again = with_timeout(per_call_timeout, fn, *([recv] if recv is not None else []), **args)
+        except Exception as e:   # noqa: BLE001
+            return {"clause": "pure.second_call", "observed": f"raised {type(e).__name__}: {e}"}
+        if again is result or again != first:
+            return {"clause": "pure.same_arguments_same_fresh_result",
+                    "observed": f"first call {first!r:.120}; after the caller changed that list the same call gave {again!r:.120}"}
     return None
 
 
@@ -443,7 +470,8 @@ def search(key, ctx, tier, seed):
     if g is None:
         return {"status": "no-generator", "cases": 0}
     rnd = random.Random(seed)
-    n = skipped = 0
+    n = skipped = prestate = 0
+    why = None
     t0 = time.time()
     budget = 20 if tier == "quick" else 120
     for case in g(tier, rnd):
@@ -451,13 +479,18 @@ def search(key, ctx, tier, seed):
         bad = check_case(key, ctx, case)
         if bad is not None and "skip" in bad:
             skipped += 1
+            if bad.get("prestate"):
+                prestate += 1
+                why = why or bad["skip"]
             continue
         if bad is not None:
             return {"status": "refuted", "cases": n, "skipped": skipped, "failure": bad, "case": case,
                     "key": key, "ctx": ctx}
         if time.time() - t0 > budget:
             break
-    return {"status": "clean", "cases": n, "skipped": skipped}
+    if prestate and prestate == n:
+        return {"status": "prestate-error", "cases": n, "skipped": skipped, "why": why}
+    return {"status": "clean", "cases": n, "skipped": skipped, **({"prestate_errors": prestate, "why": why} if prestate else {})}
 
 
 def main():
